@@ -26,6 +26,36 @@ HsOf(x) == [on |-> x.on,
             binds |-> [i \in 1..Len(x.binds) |->
                          [neg |-> SSet(x.binds[i].neg), fin |-> SSet(x.binds[i].fin)]]]
 
+(* Binding forms (harness/rec/forms.go): a binding reaches the machine as      *)
+(* handler maps (HandlersBindMaps) or as HandlersBind(&struct) whose handlers *)
+(* are methods, exported func fields, or methods / func fields PROMOTED from  *)
+(* an embedded struct (by value or through a pointer), or a mixture.  The     *)
+(* form is logged per binding (hs.binds[i].form, absent = "map").  HsOf drops *)
+(* it on purpose: the property formulas (C05_Complete, C05_FinalsOncePer-     *)
+(* Change, C05_VetoStops, C07_JudgedIndividually ...) quantify over what a    *)
+(* binding OWNS and owe every form the same handler calls.  What the form     *)
+(* does fix is ownership: a handler that is a method exists whether or not    *)
+(* the binding lists it, so a method form must own every handler name.        *)
+BindForms   == {"map", "fields", "promoted", "ppromoted", "mixfields",
+                "methods", "pmethods", "mixed"}
+MethodForms == {"methods", "pmethods", "mixed"}
+FormOf(b) == IF "form" \in DOMAIN b THEN b.form ELSE "map"
+NegNamesOf(ix) ==
+  UNION {{<<"exit", n>> : n \in SSet(ix)}, {<<"enter", n>> : n \in SSet(ix)},
+         {<<"self", n>> : n \in SSet(ix)},
+         {<<"ss", a, b>> : a \in SSet(ix), b \in SSet(ix)} \ {<<"ss", n, n>> : n \in SSet(ix)},
+         {<<"anyenter">>}}
+FinNamesOf(ix) ==
+  UNION {{<<"end", n>> : n \in SSet(ix)}, {<<"state", n>> : n \in SSet(ix)},
+         {<<"anystate">>}}
+FormsOK(x) ==
+  \A i \in 1..Len(x.hs.binds) :
+    LET b == x.hs.binds[i] IN
+    /\ FormOf(b) \in BindForms
+    /\ FormOf(b) \in MethodForms =>
+          /\ SSet(b.neg) = NegNamesOf(x.index)
+          /\ SSet(b.fin) = FinNamesOf(x.index)
+
 PairSet(s) == {<<s[i][1], s[i][2]>> : i \in 1..Len(s)}
 
 NestOf(x) == [i \in 1..Len(x) |->
@@ -54,6 +84,7 @@ InitDrift(x) ==
   LET names == DOMAIN x.raw
       parsed == [n \in names |-> ParseState(names, n, x.raw[n]).st]
   IN  (IF parsed = x.schema THEN {} ELSE {"schema.parse"})
+      \cup (IF FormsOK(x) THEN {} ELSE {"hs.form"})
       \cup (IF (~OrderedTopo /\ Cardinality(TopoSources(x.schema, x.index)) > 6)
                \/ x.topo \in TopoSet(x.schema, x.index) THEN {} ELSE {"topology"})
 
